@@ -176,10 +176,12 @@ class Builder:
         d = self.draw
         u = self.new_uid()
         self.universes_made.append((u, depth))
-        if allow_lattice and self.opts.get('lattice') and depth >= 0 \
-                and d(st.integers(0, 2)) == 0:
-            self.lattice_universe(u, depth, scale)
-            return u
+        if allow_lattice and self.opts.get('lattice') and depth >= 0:
+            force = self.opts.get('lattice') == 'force' and \
+                'lattice' not in self.labels
+            if force or d(st.integers(0, 2)) == 0:
+                self.lattice_universe(u, depth, scale)
+                return u
         n = d(st.integers(1, 2))
         regions = [self.region(scale) for _ in range(n)]
         cids = [self.new_cid() for _ in range(n + 1)]
@@ -232,19 +234,36 @@ class Builder:
         return c
 
     # -- rectangular lattices ----------------------------------------------
-    def lattice_universe(self, u, depth, scale):
+    def lattice_universe(self, u, depth, scale, force=None):
         d = self.draw
+        force = force or {}
         self.labels.add('lattice')
         ndim = d(st.sampled_from([1, 2, 2, 3]))
         self.labels.add('lat:%dd' % ndim)
         axes = d(st.permutations('xyz'))[:ndim]
         leaves = []
         pitches = []
-        for ax in axes:
+        skew = ndim == 3 and d(st.integers(0, 3)) == 0
+        if skew:
+            self.labels.add('lat:skew3d')
+            _cls, R = d(gen.rotation(('generic', 'axis', 'identity')))
+            R = np.array(R).reshape(3, 3)
+            shear = np.eye(3)
+            shear[0, 1] = d(st.sampled_from([0.0, 0.3, -0.4]))
+            shear[1, 2] = d(st.sampled_from([0.0, 0.25, -0.3]))
+            shear[0, 2] = d(st.sampled_from([0.0, 0.2]))
+            normals = (shear @ R)
+            normals = normals / np.linalg.norm(normals, axis=1, keepdims=True)
+        for q, ax in enumerate(axes):
             p = d(gen.length(0.25 * scale, 0.6 * scale))
             a = d(gen.coord(0.2 * scale))
-            lo = self.add_surf('p' + ax, [a])
-            hi = self.add_surf('p' + ax, [a + p])
+            if skew:
+                n = [float(v) for v in normals[q]]
+                lo = self.add_surf('p', n + [a])
+                hi = self.add_surf('p', n + [a + p])
+            else:
+                lo = self.add_surf('p' + ax, [a])
+                hi = self.add_surf('p' + ax, [a + p])
             pitches.append(p)
             if d(st.booleans()):
                 leaves += [md.S(-hi), md.S(lo)]       # high side first
@@ -266,17 +285,22 @@ class Builder:
         if ndim < 3 and d(st.booleans()):
             pad = d(st.integers(1, 3 - ndim))
             for _ in range(pad):
-                k0 = d(st.integers(-1, 1))
-                ranges.append((k0, k0))
+                # a dimension the lattice does not have can only be 0:0
+                ranges.append((0, 0))
             self.labels.add('lat:padded-ranges')
         size = 1
         for lo, hi in ranges:
             size *= hi - lo + 1
         cid = self.new_cid()
         mat, rho = self.material()
-        homogeneous = d(st.integers(0, 3)) == 0
-        tr = self.transform_ref(min(pitches), rot_classes=None) \
-            if d(st.integers(0, 2)) == 0 else None
+        homogeneous = d(st.integers(0, 3)) == 0 or force.get('homogeneous')
+        if force.get('tr'):
+            tr = self.transform_ref(min(pitches), allow_none=False,
+                                    rot_classes=('generic', 'perm', 'flip',
+                                                 'axis', 'small'))
+        else:
+            tr = self.transform_ref(min(pitches), rot_classes=None) \
+                if d(st.integers(0, 2)) == 0 else None
         if tr is not None:
             spec = tr['inline'] if 'inline' in tr else \
                 [t for t in self.deck['transforms']
@@ -303,9 +327,9 @@ class Builder:
                     'univs': univs, 'tr': tr}
             self.labels.add('lat:array')
         trcl = None
-        if tr is None and d(st.integers(0, 4)) == 0:
+        if d(st.integers(0, 4)) == 0 and not force.get('no_trcl'):
             trcl = self.transform_ref(min(pitches), allow_none=False)
-            self.labels.add('lat+trcl')
+            self.labels.add('lat+trcl' if tr is None else 'lat+trcl+filltr')
         c = md.cell(cid, mat, rho, expr, imp={'n': 1}, u=u, fill=fill,
                     trcl=trcl, lat=1)
         self.deck['cells'].append(c)
@@ -395,3 +419,23 @@ def hier_case(draw, tier='quick', opts=None):
     b.labels.add('depth:%d' % universe_depth(deck))
     return {'deck': deck, 'labels': sorted(b.labels), 'tier': tier,
             'box': b.box, 'pseed': draw(st.integers(0, 2 ** 31 - 1))}
+
+
+@st.composite
+def periodic_case(draw, tier='quick'):
+    """A level-0 container (no transformation) filled with a LAT=1 universe
+    that is filled homogeneously with one universe through a fill
+    transformation: the setting of the reference-free periodicity relation."""
+    b = Builder(draw, tier, {'lattice': False})
+    W = 5.0
+    world = b.add_surf('so', [W])
+    ul = b.new_uid()
+    b.lattice_universe(ul, 0, 3.0, force={'homogeneous': True, 'tr': True,
+                                          'no_trcl': True})
+    b.deck['cells'].append(md.cell(b.new_cid(), 0, None, md.S(-world),
+                                   imp={'n': 1}, fill={'u': ul, 'tr': None}))
+    b.deck['cells'].append(md.cell(b.new_cid(), 0, None, md.S(world),
+                                   imp={'n': 0}))
+    b.labels.add('periodic-setting')
+    return {'deck': b.deck, 'labels': sorted(b.labels), 'tier': tier,
+            'box': W * 1.15, 'pseed': draw(st.integers(0, 2 ** 31 - 1))}
